@@ -375,7 +375,12 @@ class Gen(object):
             v = self.one(['true', 'false'])
             return ('Bool', v), [K(v)]
         if k == 'paren':
-            e, et = self.expression(fuel - 1, False, False)
+            if self.chance(12):
+                # a grouping whose content would bind differently without it: `(new X).p` is not `new X.p`
+                inner, it = self.member(fuel - 1, False, False)
+                e, et = ('New', inner, None), [K('new')] + it
+            else:
+                e, et = self.expression(fuel - 1, False, False)
             if e[0] == 'Paren':
                 return e, [P('(')] + et + [P(')')]  # nested groupings collapse (stated normalisation)
             return ('Paren', e), [P('(')] + et + [P(')')]
